@@ -263,8 +263,6 @@ def space(tier, seed):
     if tier == 'thorough':
         for h in dag_masks(4):
             gs.append({'n': 4, 'loops': False, 'h': h, 'pos': 'asas', 'dag': True})
-        for h in dag_masks(3):
-            gs.append({'n': 3, 'loops': False, 'h': h, 'pos': 'nvn', 'dag': True})
     cs = corpora(3 if tier == 'thorough' else 2)
     if tier == 'quick':
         cs += [['w0', 'w0', 'amb'], ['amb', 'amb', 'stone fruit'], ['w0', 'amb', 'stone fruit'],
